@@ -15,15 +15,10 @@ namespace WebAuthn.C02
   cases env.answer (.sha256 b) <;> rfl
 
 theorem run_askClientData (env : Prog.Env) (raw : Bytes) :
-    Prog.run env (askClientData raw) = (match env.answer (.clientData raw) with | .clientData c => some c | _ => none) := by
-  unfold askClientData
-  simp only [Prog.run_bind, Prog.run_query]
-  cases env.answer (.clientData raw) <;> rfl
+    Prog.run env (askClientData raw) = Json.clientData raw := rfl
 
 theorem askClientData_some (env : Prog.Env) (raw : Bytes) (cd : ClientData) :
-    Prog.run env (askClientData raw) = some cd ↔ env.answer (.clientData raw) = .clientData cd := by
-  rw [run_askClientData]
-  cases env.answer (.clientData raw) <;> simp
+    Prog.run env (askClientData raw) = some cd ↔ Json.clientData raw = some cd := Iff.rfl
 
 theorem origin_ok_iff (env : Prog.Env) (co ro : Bytes) :
     Prog.run env (originMatches co ro) = true ↔ Spec.OriginOK env co ro := by
@@ -178,7 +173,7 @@ theorem core_ok_of (env rp o c opts) (id key : Bytes) (h : Spec.RegPreOK env rp 
     regCore env rp o c opts = .ok (id, key) := by
   obtain ⟨⟨cd, hcd, ht, hch, hor⟩, ⟨ao, rest, ad, adRest, acd, k, kRest, res, hao, had, hrp, hup, huv, hacd, hk, halg,
     hres, htypes, hfmts, hraw, hid, hkey⟩⟩ := h
-  have hcd' := (askClientData_some _ _ _).2 hcd
+  have hcd' := (askClientData_some env _ _).2 hcd
   have hor' := (origin_ok_iff _ _ _).2 hor
   rw [← (C10.flag_bits ad.flags).1] at hup
   rw [← (C10.flag_bits ad.flags).2.1, ← str_required] at huv
@@ -343,10 +338,17 @@ def attObj : Bytes :=
 def o : CreationOptions := ⟨[1, 2, 3], [42], [-7, -8], none⟩
 def env : Prog.Env := ⟨fun q => match q with
   | .sha256 _ => .bytes (zeros 32)
-  | .clientData _ => .clientData ⟨Spec.str "webauthn.create", B64.encode o.challenge, Spec.str "https://login.example.com"⟩
   | _ => .none⟩
 def rp : RP := ⟨Spec.str "https://example.com", Spec.str "example.com"⟩
-def att : Attestation := ⟨[7], Spec.str "{}", attObj⟩
+/-- the client data of the example: a real JSON document; `AQID` is base64url of the options' challenge `[1, 2, 3]` -/
+def clientDataJSON : Bytes :=
+  Bytes.ofString "{\"type\":\"webauthn.create\",\"challenge\":\"AQID\",\"origin\":\"https://login.example.com\",\"crossOrigin\":false}"
+def att : Attestation := ⟨[7], clientDataJSON, attObj⟩
+
+/-- `encoding/json` (the Lean model) decodes the example's client data to the intended three members -/
+theorem client_data : Json.clientData clientDataJSON =
+    some ⟨Spec.str "webauthn.create", B64.encode o.challenge, Spec.str "https://login.example.com"⟩ := by
+  decide +kernel
 
 /-- the example's origins really parse to the hosts the example intends (a subdomain of the RP host, and the RP host) -/
 theorem client_host : Url.hostOf (Spec.str "https://login.example.com") = some (Spec.str "login.example.com") := by
@@ -355,7 +357,12 @@ theorem rp_host : Url.hostOf rp.origin = some rp.id := by decide +kernel
 
 
 set_option maxRecDepth 100000 in
-theorem core_ok : regCore env rp o att [] = .ok ([7], keyBytes) := by with_unfolding_all rfl
+theorem core_ok : regCore env rp o att [] = .ok ([7], keyBytes) := by
+  have h : Prog.run env (askClientData att.clientDataJSON) =
+      some ⟨Spec.str "webauthn.create", B64.encode o.challenge, Spec.str "https://login.example.com"⟩ := client_data
+  unfold regCore
+  rw [h]
+  with_unfolding_all rfl
 
 /-- NON-VACUITY: `Spec.RegPreOK` holds for a concrete environment and a concrete `none`-format attestation object
     (the CBOR decoder, the authenticator-data and COSE parsers and the dispatch are evaluated on the literal bytes) -/
